@@ -678,6 +678,21 @@ pub fn c04(rec: &mut Rec, rng: &mut Rng, thorough: bool) {
                         drain_writes(&mut d, rec);
                     }
                 }
+                // the limit is judged on the DECLARED length, whatever this connection has staged before: every fourth case
+                // first delivers two conforming requests with bodies of 0.6 L and 0.7 L (so that whatever the connection
+                // keeps around for staging bodies has grown past L)
+                if (n as usize + variant + l) % 4 == 1 && l >= 2 && l <= 60000 {
+                    for frac in [6usize, 7] {
+                        let m = (l * frac / 10).max(1);
+                        let mut r = format!("PUT /warm HTTP/1.1\r\nContent-Length: {}\r\n\r\n", m).into_bytes();
+                        r.extend_from_slice(&gen::body_bytes(rng, m));
+                        for ch in r.chunks(700) {
+                            d.recv(rec, ch, 0);
+                        }
+                        d.popall(rec);
+                    }
+                    rec.count("payload:after-conforming-bodies");
+                }
                 let pre = if variant % 2 == 1 { "GET /first HTTP/1.1\r\n\r\n" } else { "" };
                 // (every third case: the header line in front of Content-Length ends in a bare CR — CR CR LF in the stream;
                 // the line still ends at its CRLF and the declaration that follows is seen)
@@ -1682,8 +1697,10 @@ pub fn c14(rec: &mut Rec, rng: &mut Rng, thorough: bool) {
             _ => gen::corrupt(rng, &p, which),
         };
         // with and without trailing bytes after the declared body
-        match rng.below(5) {
+        match rng.below(6) {
             0 => bytes.extend_from_slice(b"x"),
+            // a stray line terminator directly behind the declared body: for both parsers it is NOT part of the request
+            5 => bytes.extend_from_slice(b"\r\n"),
             1 => bytes.extend_from_slice(&gen::valid_request(rng, &o).bytes()),
             2 if !bytes.is_empty() => {
                 bytes.pop();
